@@ -28,6 +28,7 @@
 #include <fcntl.h>
 #include <limits.h>
 #include <stddef.h>
+#include <stdio.h>
 #include <stdlib.h>
 #include <string.h>
 #include <sys/mman.h>
@@ -51,6 +52,7 @@
 static cJSON *user_data = NULL;
 static const cJSON *users = NULL;
 static int password_file = -1;
+static char *password_file_name = NULL;
 
 struct crypt_method {
 	const char *prefix;        /* salt prefix */
@@ -141,9 +143,9 @@ int load_passwd_data(const char *passwd_file)
 	}
 
 	munmap(p, size);
-	free(rp);
 
 	password_file = fd;
+	password_file_name = rp;
 	return 0;
 
 add_call_groups_failed:
@@ -174,6 +176,12 @@ void free_passwd_data(void)
 
 	if (password_file != -1) {
 		close(password_file);
+		password_file = -1;
+	}
+
+	if (password_file_name != NULL) {
+		free(password_file_name);
+		password_file_name = NULL;
 	}
 }
 
@@ -269,33 +277,88 @@ static bool is_admin(const char *current_user)
 	return false;
 }
 
+static int write_all(int fd, const char *data, size_t length)
+{
+	while (length > 0) {
+		cjet_ssize_t written = write(fd, data, length);
+		if (written <= 0) {
+			return -1;
+		}
+		data += written;
+		length -= (size_t)written;
+	}
+	return 0;
+}
+
+/*
+ * The new content is written into a temporary file next to the password
+ * file, synced and then renamed over the password file. So the password
+ * file holds either the complete old or the complete new content at any
+ * time, whatever happens in between.
+ */
 static int write_user_data()
 {
-	if (ftruncate(password_file, 0) < 0) {
-		log_err("Could not truncate password file\n");
+	static const char suffix[] = ".tmp";
+	int ret = -1;
+
+	if (password_file_name == NULL) {
+		log_err("No password file to write to\n");
 		return -1;
 	}
 
-	lseek(password_file, 0, SEEK_SET);
 	char *data = cJSON_Print(user_data);
 	if (data == NULL) {
 		log_err("Could not serialize user data!");
 		return -1;
 	}
 
-	cjet_ssize_t written = 0;
-	cjet_ssize_t to_write = strlen(data);
-	while (written < to_write) {
-		written = write(password_file, data, to_write);
-		if (written < 0) {
-			log_err("Could not write password file\n");
-			return -1;
-		}
-		to_write -= written;
+	size_t name_length = strlen(password_file_name);
+	char *tmp_name = cjet_malloc(name_length + sizeof(suffix));
+	if (tmp_name == NULL) {
+		log_err("Could not allocate name of temporary password file\n");
+		goto alloc_name_failed;
+	}
+	memcpy(tmp_name, password_file_name, name_length);
+	memcpy(tmp_name + name_length, suffix, sizeof(suffix));
+
+	int fd = open(tmp_name, O_WRONLY | O_CREAT | O_TRUNC, S_IRUSR | S_IWUSR);
+	if (fd == -1) {
+		log_err("Could not create temporary password file\n");
+		goto open_failed;
 	}
 
+	struct stat st;
+	if (fstat(password_file, &st) == 0) {
+		(void)fchmod(fd, st.st_mode & 07777);
+	}
+
+	if ((write_all(fd, data, strlen(data)) < 0) || (fsync(fd) < 0)) {
+		log_err("Could not write password file\n");
+		close(fd);
+		unlink(tmp_name);
+		goto write_failed;
+	}
+
+	if (close(fd) < 0) {
+		log_err("Could not write password file\n");
+		unlink(tmp_name);
+		goto write_failed;
+	}
+
+	if (rename(tmp_name, password_file_name) < 0) {
+		log_err("Could not replace password file\n");
+		unlink(tmp_name);
+		goto write_failed;
+	}
+
+	ret = 0;
+
+write_failed:
+open_failed:
+	cjet_free(tmp_name);
+alloc_name_failed:
 	cjet_free(data);
-	return 0;
+	return ret;
 }
 
 static void fill_salt(char *buf, unsigned int salt_len)
@@ -400,11 +463,22 @@ cJSON *change_password(const struct peer *p, const cJSON *request, const char *u
 			goto out;
 		}
 
-		cJSON_ReplaceItemInObject(user, "password", cJSON_CreateString(encrypted));
+		cJSON *new_password = cJSON_CreateString(encrypted);
+		if (new_password == NULL) {
+			response = create_error_response_from_request(p, request, INTERNAL_ERROR, "reason", "not enough memory for new password");
+			goto out;
+		}
+
+		cJSON *old_password = cJSON_DetachItemFromObject(user, "password");
+		cJSON_AddItemToObject(user, "password", new_password);
 		if (write_user_data() < 0) {
+			/* the file still holds the old password, so must the daemon */
+			cJSON_DeleteItemFromObject(user, "password");
+			cJSON_AddItemToObject(user, "password", old_password);
 			response = create_error_response_from_request(p, request, INTERNAL_ERROR, "reason", "Could not write password file");
 			goto out;
 		}
+		cJSON_Delete(old_password);
 	} else {
 		response = create_error_response_from_request(p, request, INVALID_PARAMS, "reason", "user not allowed to change password");
 		goto out;
